@@ -1,4 +1,19 @@
+//! h_pattern — C01, C02, C03, C05 (pattern matching: sase.rs, engine/compiler.rs, engine/pipeline.rs).
+
+mod c01;
+mod c02;
+mod c03;
+mod c05;
+mod common;
+
 fn main() {
     let args = mc::parse_args();
-    mc::machinery_error(&format!("{} is not built yet", args.prop));
+    mc::quiet_panics();
+    match args.prop.as_str() {
+        "C01" => c01::run(&args),
+        "C02" => c02::run(&args),
+        "C03" => c03::run(&args),
+        "C05" => c05::run(&args),
+        other => mc::machinery_error(&format!("h_pattern serves C01, C02, C03, C05 (got {other})")),
+    }
 }
